@@ -15,17 +15,16 @@ CLAIM = dict(
          "loop (0 | 8 | short | EINTR | error)/wait/return. TLC checks in every reachable state of every (configuration, "
          "fault) pair: argv/envp vectors NULL-terminated, the return point is passed only by the caller and at most once, "
          "Ok implies that no step up to exec failed and the child exec'ed exactly the configured program/argv/env/cwd/"
-         "stdio/ids, Err implies a failed step and carries its positive errno, the child never gets back into the caller's "
+         "stdio/ids, Err implies a failed step, carries its positive errno and means that no child exec'ed (ErrMeansNoExec), the child never gets back into the caller's "
          "code, wait/try_wait report the child's status on every call of a sequence (status cache, ECHILD after reaping modelled), nobody blocks forever (deadlock freedom). Quick: all 64 stdio tables on a base "
          "command and on a command using every other setting + 720 configurations of the other dimensions (args, env, cwd, own/foreign uid/gid, pgroup, closures, program present/missing) x 31 fault plans (~470k states per `start` variant); the "
-         "five deviations (child-side `?`, negative execve errno, inverted env test, wait holding the "
-         "child's stdio pipes = deadlock, try_wait not caching the status) are re-exhibited by TLC on every run as an anti-vacuity test. Real code: every fault-free configuration and 3 (thorough 24) "
+         "six deviations (child-side `?`, negative execve errno, inverted env test, wait holding the "
+         "child's stdio pipes = deadlock, try_wait not caching the status, EINTR not retried) and two stray-pipe-end deviations of SpawnFlow.tla are re-exhibited by TLC on every run as an anti-vacuity test. Real code: every fault-free configuration and 3 (thorough 24) "
          "configurations per (fault, predicted outcome) class are executed in four builds - std-linked with `start`, "
          "std-linked without `start`, no-libc executable started by tiny-std's own _start (real Environment::Inherit), "
          "no-libc no-alloc executable using the free function process::spawn::<N> - quick ~6900 runs, thorough ~50000, "
          "with the failure injected by ptrace in the caller or in the forked child and the caller/child interleaving forced to free / caller-first / child-first in a third of the runs each; the caller's use of the returned Child is a TLC-generated sequence of 1..3 calls over wait / try_wait / "
-         "try_wait-polled (all 39, with exit code, exit code >= 128 and SIGKILL; a status once reported must be reported again by every later call),  every other run uses Command::args/envs instead of arg/env, a stdin pipe is fed by the "
-         "caller and must deliver exactly those bytes and end-of-file to the program, helpers end by exit 0/3/7 or "
+         "try_wait-polled (all 39, with exit code, exit code >= 128 and SIGKILL; a status once reported must be reported again by every later call),  every other run uses Command::args/envs instead of arg/env, data flow through Stdio::MakePipe is checked against SpawnFlow.tla (all 3456 caller plans over write/close/read-to-EOF/wait x stdio tables x payload 0/1/65537 bytes model-checked; sampled plans executed: byte count + order-sensitive checksum per stream, stderr not crossed with stdout, EOF, self-blocking plans admitted to hang), each stdio pipe has exactly one descriptor on each side after spawn, the program's complete descriptor table holds nothing spawn created, Inherit/RawFd share the caller's open file description (offset footprint), the same Command is spawned twice (optionally with one more arg) and both children are judged, env entries with repeated key / empty value / '=' in value / empty key / no '=' are passed through,  helpers end by exit 0/3/7 or "
          "SIGKILL/SIGTERM; each trace is accepted or rejected by TLC at the property level and "
          "its per-process call sequence / result is compared with the model's prediction.",
     note="Trusted: TLC, SpawnAbs.tla, the tracer's view of the process tree (ptrace stops; per-task order is causal, "
@@ -36,5 +35,5 @@ CLAIM = dict(
          "step after the fork (sync-pipe read, wait4) need not carry an errno; a child that has reported its error and "
          "is about to exit is not 'running the caller's code' (reaping is not demanded). Not reached: "
          "running as a non-root caller (uid/gid settings: own ids and nobody/nogroup as root; refusals injected), signals during spawn, "
-         "two simultaneous failures, aarch64. Descriptor leaks of do_spawn belong to C12.",
+         "two simultaneous failures, aarch64. Descriptor leaks of do_spawn belong to C12. Known findings: Err after an injected hard failure (EIO/EBADF/short) of the sync-pipe read although the child exec'ed (not repairable, not producible without injection).",
 )
